@@ -261,6 +261,10 @@ def run_item(ctx, item):
         f2 = [f for f in feats if f not in ("pickup", "ts_changes")] + (["clefs"] if rng.random() < 0.5 else [])
         p, _ = gen_score.make_part(rng, f"P{i + 1}", features=f2, divs=rng.choice(cands), skeleton=meta0["skeleton"])
         parts.append(p)
+    if rng.random() < 0.2:
+        # parts need not have distinct ids (the first parts of two separately loaded files are both "P1")
+        parts[rng.randrange(1, len(parts))].id = parts[0].id
+        ctx.extra["merges_with_a_later_part_named_like_the_first"] += 1
     hostile = rng.random()
     for p in parts:
         notes = timemaps.objects_of(p, S.GenericNote, exact=False)
